@@ -674,6 +674,40 @@ def gen_sequence(rng, k: int, deliveries: list[tuple[int, int, str]], length: in
 # ---------------------------------------------------------------------------------------------
 
 
+def shape_circuit(rng, n: int) -> list[int]:
+    """A closed walk over the n session shapes in which every ordered pair (a, b), a != b, is adjacent once
+    (an Eulerian circuit of the complete digraph, Hierholzer): n * (n - 1) + 1 shapes."""
+    out_edges = {a: [b for b in range(n) if b != a] for a in range(n)}
+    for a in out_edges:
+        rng.shuffle(out_edges[a])
+    stack, walk = [rng.randrange(n)], []
+    while stack:
+        v = stack[-1]
+        if out_edges[v]:
+            stack.append(out_edges[v].pop())
+        else:
+            walk.append(stack.pop())
+    return walk[::-1]
+
+
+def pairwise_cases(rng, pool: list[Msg], how_many: int) -> list[dict]:
+    """One message, every session shape right after every other one (the last-block cache holds ONE entry, so
+    adjacency is what a stale answer needs; a cache with more entries is reached as well): a decision of the
+    decoder that depends on a session parameter the key of a cache does not hold shows on the pair of shapes
+    that differ in that parameter only (asn4/asn2, aigp on/off, eBGP/iBGP, ADD-PATH, families)."""
+    core = [i for i, m in enumerate(pool) if m.origin == 'hand' and m.names is not None and m.nlri == '10/24' and
+            (len(m.names) == 1 or (len(m.names) == 4 and m.names[1] in ('aspath-empty', 'aspath-f8')))]  # fmt: skip
+    always = [i for i in core if pool[i].names in (['aigp'], ['origin-igp', 'aspath-f8', 'nexthop', 'aigp'])]
+    rest = [i for i in core if i not in always]
+    rng.shuffle(rest)
+    cases = []
+    for mi in (always + rest)[:how_many]:
+        m = pool[mi]
+        steps = [{'s': sh, 't': m.t, 'body': m.body.hex()} for sh in shape_circuit(rng, len(R.SPECS))]
+        cases.append({'specs': R.SPECS, 'steps': steps, 'origin': 'pairwise'})
+    return cases
+
+
 def load_corpus() -> list[dict]:
     d = common.VERIF / 'corpus' / PROP
     return [dict(json.loads(f.read_text()), file=f.name) for f in sorted(d.glob('*.json'))] if d.exists() else []
@@ -743,12 +777,13 @@ def _run(ctx: Ctx, rng, quick: bool, wpool: 'R.Pool') -> None:
             if rng.random() < 0.7:
                 st['ord'] = rng.randrange(1, 1000)
         cases.append({'specs': R.SPECS, 'steps': steps, 'origin': 'random'})
-    for c in cases:  # corpus first, each with the fresh twins of its steps
-        if c['origin'] == 'corpus':
+    cases += pairwise_cases(rng, mpool, int(os.environ.get('VERIF_C19_PAIRWISE', '8' if quick else '200')))
+    for c in cases:  # corpus and the pairwise walks first, each with the fresh twins of its steps
+        if c['origin'] in ('corpus', 'pairwise'):
             c['id'] = run.submit(c['specs'], c['steps'])
             run.ensure_twins(c['specs'], c['steps'])
     for c in cases:
-        if c['origin'] != 'corpus':
+        if c['origin'] not in ('corpus', 'pairwise'):
             c['id'] = run.submit(c['specs'], c['steps'])
     ctx.count('jobs:submitted', run.next_id)
     timing = {'generate_s': round(time.time() - t_start, 1)}
